@@ -1858,6 +1858,12 @@ class Interp:
                 and st.env.get(recv['bind'], ('unk',))[0] in TRACKED_VEC and cal.rsplit('::', 1)[-1] not in ('reserve', 'reserve_exact', 'shrink_to_fit'):
             forget = recv['bind']
         for vals, s in res:
+            if forget is not None and cal.rsplit('::', 1)[-1] in self.SORTS_BY_KEY and '<impl [T]>::' in cal and len(vals) == 2 \
+                    and listed_elems(vals[0]) is not None:
+                srt = self.sort_listed(cal.rsplit('::', 1)[-1], listed_elems(vals[0]), vals[1], e, s)
+                if srt is not None:
+                    outs.append(Out('val', UNIT, srt[1].set(forget, ('vec', srt[0])).event(('call', cal, tuple(vals), e))))
+                    continue
             for o in self.call(cal, vals, e, s):
                 if forget is not None and o.kind == 'val':
                     after = ('unk', 'vector after %s()' % cal.rsplit('::', 1)[-1])
@@ -1873,6 +1879,37 @@ class Interp:
                     o = Out('val', o.val, o.st.set(forget, after))
                 outs.append(o)
         return outs + abn
+
+    SORTS_BY_KEY = ('sort_by_key', 'sort_by_cached_key', 'sort_unstable_by_key')
+
+    def sort_listed(self, name, xs, fv, node, st):
+        """slice.sort_by_key(f) / sort_by_cached_key(f) / sort_unstable_by_key(f) on a sequence whose elements are listed one by one:
+        the elements in ascending order of their keys, elements with equal keys in their old order (the first two are stable sorts);
+        the unstable sort is the same function exactly when the keys are pairwise different (it leaves the order of equal elements
+        open: no model then).  Decided only when f yields, for every element, one literal integer (or one literal bool) without doing
+        anything else - Ord on integers / bools is the order of the values.  Returns (elements, state) or None (no model)."""
+        if fv[0] not in ('closure', 'fn'):
+            return None
+        keys, s = [], st
+        for x in xs:
+            outs = self.apply(fv, [x], node, s)
+            if len(outs) != 1 or outs[0].kind != 'val' or len(outs[0].st.ev) != len(s.ev) or outs[0].st.heap != s.heap:
+                return None
+            k = outs[0].val
+            while k[0] == 'cast' and k[1][0] == 'lit' and isinstance(k[1][1], int) and not isinstance(k[1][1], bool) \
+                    and INT_RANGE.get(hirq.strip_refs(str(k[2] or ''))) is not None \
+                    and INT_RANGE[hirq.strip_refs(str(k[2] or ''))][0] <= k[1][1] <= INT_RANGE[hirq.strip_refs(str(k[2] or ''))][1]:
+                k = k[1]            # a cast that keeps the value
+            if k[0] != 'lit' or not isinstance(k[1], int):
+                return None
+            keys.append(k[1])
+            s = outs[0].st
+        if len({isinstance(k, bool) for k in keys}) > 1:
+            return None
+        if name == 'sort_unstable_by_key' and len(set(keys)) != len(keys):
+            return None
+        order = sorted(range(len(xs)), key=lambda i: keys[i])        # (Python's sort is stable)
+        return tuple(xs[i] for i in order), s
 
     VEC_CAPACITY_ONLY = ('reserve', 'reserve_exact', 'shrink_to_fit', 'shrink_to', 'try_reserve', 'try_reserve_exact')
 
@@ -1973,6 +2010,11 @@ class Interp:
                 if lo > hi or hi > n:
                     return panic()
                 done(('vec', xs[:lo] + xs[hi:]), ('vec', xs[lo:hi]))
+                return True
+        if not own and name in self.SORTS_BY_KEY and '<impl [T]>::' in cal and len(vals) == 1:
+            srt = self.sort_listed(name, list(xs), vals[0], e, s)
+            if srt is not None:
+                done(('vec', srt[0]), UNIT, srt[1])
                 return True
         if not own and cal == 'core::slice::<impl [T]>::reverse' and not vals:
             done(('vec', tuple(reversed(xs))), UNIT)
